@@ -262,6 +262,20 @@ def literal_cases(tier, rng):
         yield text, "S:%r" % to_f32(val)
         yield text + "#", "D:%r" % val
         yield "-" + text, "S:%r" % to_f32(-val)
+        yield "-" + text + "#", "D:%r" % -val
+    # fractional and # literals at the whole-number type boundaries, plain and directly after a unary minus: they keep their
+    # floating type (the one value 2147483648 written with a fraction or # after a minus is the pinned finding KF-C10-1)
+    for whole in (32767, 32768, 32769, 65535, 65536, 2147483647, 2147483649, 4294967295, 4294967296):
+        for frac in ("0", "5", "25", "000"):
+            text = "%d.%s" % (whole, frac)
+            yield text + "#", "D:%r" % float(text)
+            yield "-" + text + "#", "D:%r" % -float(text)
+            if whole < 100000:
+                yield text, "S:%r" % to_f32(float(text))
+                yield "-" + text, "S:%r" % to_f32(-float(text))
+    for frac in ("5", "25", "125"):
+        yield "2147483648.%s#" % frac, "D:%r" % float("2147483648." + frac)
+        yield "-2147483648.%s#" % frac, "D:%r" % -float("2147483648." + frac)
     # literals that no type can hold must be rejected, never become infinity
     yield "1" + "0" * 45 + ".5", "REJECT_OVERFLOW"
     yield "9" * 40 + ".25", "REJECT_OVERFLOW"
@@ -447,7 +461,7 @@ def main(tier, seed):
     return driver.run_check(
         PID, shard, params, tier, seed,
         min_evaluations=20000 if tier == "quick" else 500000,
-        rule=RULE,
+        rule=RULE, witness_fn=driver.program_witness,
         assumptions=["value adjudication compares the real interpreter with itself (chain vs its standard parenthesisation), so it needs no reference arithmetic",
                      "the fraction rule of the property (SINGLE unless #) is applied as written, also to literals with more than seven digits"],
     )
